@@ -407,7 +407,7 @@ def run_laws(chk: Check, tier, rng):
         sig = infer.SIG[:n]
         for kap in itertools.product(range(4), repeat=1 << n):
             items.append((sig, list(kap), rng.randrange(1 << 30)))
-    for n, cnt in ((3, 300 if tier == "quick" else 6000), (4, 60 if tier == "quick" else 1500), (5, 0 if tier == "quick" else 200), (6, 0 if tier == "quick" else 40)):
+    for n, cnt in ((3, 300 if tier == "quick" else 20000), (4, 60 if tier == "quick" else 5000), (5, 0 if tier == "quick" else 800), (6, 0 if tier == "quick" else 150)):
         sig = infer.SIG[:n] if n <= 5 else infer.SIG + ["f"]
         for i in range(cnt):
             if i % 2:
